@@ -78,6 +78,18 @@ def poly_case(res, pts, ids, exprs, meta):
         bad.append(f"scaling law violated for factor {s}")
     if zc.get_area_sign() != sg or [zc.get_next_vertex(w).id for w in zc.vertices] != nxt:
         bad.append(f"area sign / navigation change under scaling by {s}")
+    # the same Cell object after its cycle was reversed in place (and restored): the answers follow the current cycle, not an earlier query
+    cell.vertices.reverse()
+    if Fraction(cell.get_area()) != -Fraction(a) or cell.get_area_sign() != -sg:
+        bad.append(f"after reversing the cycle of the same cell in place: area {cell.get_area()} (was {a}), area sign {cell.get_area_sign()} (was {sg})")
+    elif sg != 0:
+        rids = ids[::-1]
+        rn = [cell.get_next_vertex(v).id for v in cell.vertices]
+        if rn != [rids[(i - sg) % n] for i in range(n)]:
+            bad.append("after reversing the cycle of the same cell in place, next-vertex navigation does not follow the new area sign")
+    cell.vertices.reverse()
+    if cell.get_area_sign() != sg or [cell.get_next_vertex(v).id for v in vs] != nxt:
+        bad.append("after restoring the cycle in place, area sign / navigation differ from the first answers")
     replay = {"pts": [[float(x).hex(), float(y).hex()] for x, y in pts], "ids": ids, "meta": meta}
     for b in bad:
         res.fail("oracle", b, replay)
